@@ -21,6 +21,36 @@ CHECKS = {
             "checker's own epoch ledger, reported with a true reason; immediate rebuilds execute nothing.",
             "Ledger derives 'changed' from completion values in the trace; interrupted rules may report any reason.",
             "DESIGN 2/C02"),
+    "C03": ("exploration", "hypothesis+enginesim",
+            "differential PBT (single engine vs restart at every build) + raw-SQLite/BuildDB round-trip vs completion ledger + version-pair and lock families",
+            "No counter-example among generated histories: executions/reasons/values identical with an engine+database "
+            "restart at every build boundary; stored rows (raw sqlite3 and fresh BuildDB) equal the checker's ledger of "
+            "processed completions for adversarial key/value bytes; foreign versions are never interpreted; a second "
+            "engine cannot build while the first holds the database.",
+            "Restart = new engine + new BuildDB object in one process; SQLite itself is trusted.", "DESIGN 2/C03"),
+    "C05": ("fault_enumeration", "hypothesis+enginesim",
+            "fault enumeration: cancelBuild() at every engine step / callback boundary / idle wait of a generated victim build, two continuations each",
+            "For every generated history the cancellation is placed at EVERY loop top, callback boundary and idle wait of "
+            "the victim build (stride-sampled above the cap, counted), continued on the same engine after reset and on a "
+            "new engine over the same database; termination, no late callbacks, database rows only from processed "
+            "completions, clean values afterwards.",
+            "Cancellation instants are engine steps exposed by the LLBUILD_VERIF hooks; one known finding "
+            "(discovered-dependency ABA) is classified by its history motif and reported as KNOWN-FINDING.",
+            "DESIGN 2/C05"),
+    "C06": ("exploration", "hypothesis+enginesim",
+            "per-case exhaustive enumeration of completion orders + protocol monitor; randomised racing threads under TSan",
+            "Every completion order at every idle point of every build of each generated history (capped, counted) gives "
+            "the same values / executed sets as the synchronous run and satisfies the per-task protocol monitor; a "
+            "threaded run under ThreadSanitizer (optionally with a racing cancel) terminates without a report.",
+            "Deterministic modes own completion order, not preemption inside engine critical sections; threads mode is "
+            "sampling.", "DESIGN 2/C06"),
+    "C07": ("exploration", "hypothesis+enginesim",
+            "model-based PBT: generated digraphs x histories vs fixpoint reference; cycle-list validity predicate",
+            "No counter-example among generated cyclic/acyclic graphs (incl. cycles through rules being scanned and "
+            "through dynamic edges): cyclic => failure + exactly one well-formed report whose consecutive pairs are "
+            "real wait-fors; acyclic => no report, no stall, clean value.",
+            "Cycles that exist only through single-use edges are don't-care (the statement does not fix whether the "
+            "edge is demanded when its owner is up to date).", "DESIGN 2/C07"),
 }
 
 NOT_APPLICABLE = {
